@@ -128,7 +128,10 @@ def _root_of(ctx, ci, e: ast.expr, depth) -> Tuple[Optional[str], List[str]]:
             params = [p_ for p_ in hm.params if p_ not in ("self", "cls")]
             if len(params) >= len(e.args):
                 try:
-                    body = SUMMARIZER.summarize(hm.node, dict(zip(params, e.args)))
+                    from ..symex import distribute_attr, fold_consts
+
+                    # literal flags decide the helper's branches (`smoothed=False`)
+                    body = fold_consts(distribute_attr(SUMMARIZER.summarize(hm.node, dict(zip(params, e.args)))))
                 except Exception:
                     body = None
                 if body is not None:
